@@ -33,7 +33,8 @@ Proof.
   induction s as [|c s IH]; intros acc nm rest H; cbn [take_until_rbrace] in H; [discriminate|].
   destruct (N.eqb c ch_rbrace) eqn:E.
   - inversion H; subst. split; [cbn [length]; lia|]. intros x. cbn [app take_until_rbrace]. rewrite E. reflexivity.
-  - apply IH in H. destruct H as [Hl Hx]. split; [cbn [length]; lia|]. intros x. cbn [app take_until_rbrace]. rewrite E. apply Hx.
+  - destruct (is_name_char c) eqn:En; [|discriminate].
+    apply IH in H. destruct H as [Hl Hx]. split; [cbn [length]; lia|]. intros x. cbn [app take_until_rbrace]. rewrite E, En. apply Hx.
 Qed.
 
 Lemma parse_cat_name_ext s nm rest : parse_cat_name s = Some (nm, rest) ->
@@ -41,7 +42,8 @@ Lemma parse_cat_name_ext s nm rest : parse_cat_name s = Some (nm, rest) ->
 Proof.
   destruct s as [|c s]; cbn [parse_cat_name]; [discriminate|]. intros H. destruct (N.eqb c ch_lbrace) eqn:E.
   - apply take_until_rbrace_ext in H. destruct H as [Hl Hx]. split; [cbn [length]; lia|]. intros x. cbn [app parse_cat_name]. rewrite E. apply Hx.
-  - inversion H; subst. split; [cbn [length]; lia|]. intros x. cbn [app parse_cat_name]. rewrite E. reflexivity.
+  - destruct (in_range 97 122 c || in_range 65 90 c) eqn:El; [|discriminate].
+    inversion H; subst. split; [cbn [length]; lia|]. intros x. cbn [app parse_cat_name]. rewrite E, El. reflexivity.
 Qed.
 
 Lemma parse_escape_ext s it rest : parse_escape s = Some (it, rest) ->
@@ -67,8 +69,15 @@ Definition class_item (c : N) (s' : list N) : option (citem * list N) :=
 Definition class_hi (e : N) (r3 : list N) : option (citem * list N) :=
   if N.eqb e ch_bs then parse_escape r3 else Some (CChar e, r3).
 
+Definition setop_at (c : N) (s' : list N) : bool := is_setop c && match s' with d :: _ => N.eqb d c | [] => false end.
+Lemma setop_at_hd c a b : hd_error a = hd_error b -> setop_at c a = setop_at c b.
+Proof. unfold setop_at. destruct a as [|x a], b as [|y b]; cbn [hd_error]; intros H; try discriminate; [reflexivity|]. inversion H; subst. reflexivity. Qed.
+Lemma setop_at_app c s' x : s' <> [] -> setop_at c (s' ++ x) = setop_at c s'.
+Proof. intros H. apply setop_at_hd. destruct s'; [contradiction|reflexivity]. Qed.
+
 Lemma parse_class_S f c s' acc first : parse_class (S f) (c :: s') acc first =
   if N.eqb c ch_rbrack && negb first then Some (rev acc, s')
+  else if setop_at c s' then None
   else
     match class_item c s' with
     | None => None
@@ -79,6 +88,7 @@ Lemma parse_class_S f c s' acc first : parse_class (S f) (c :: s') acc first =
               match r2 with
               | e :: r3 =>
                   if N.eqb e ch_rbrack then parse_class f r1 (CChar lo :: acc) false
+                  else if N.eqb e ch_minus then None
                   else
                     match class_hi e r3 with
                     | Some (CChar hi, r4) => if N.leb lo hi then parse_class f r4 (CRange lo hi :: acc) false else None
@@ -117,8 +127,13 @@ Proof.
   destruct (N.eqb c ch_rbrack && negb first) eqn:E1.
   { inversion H; subst. split; [cbn [length]; lia|]. intros f x Hf. destruct f as [|f]; [cbn [length] in Hf; lia|].
     cbn [app]. rewrite parse_class_S, E1. reflexivity. }
+  destruct (setop_at c s') eqn:Eso; [discriminate|].
   destruct (class_item c s') as [[it r1]|] eqn:Ei; [|discriminate].
   destruct (class_item_ext _ _ _ _ Ei) as [Hl1 Hx1].
+  assert (Hne : s' <> []).
+  { intros ->. destruct r1; [|cbn [length] in Hl1; lia]. destruct it; try discriminate.
+    destruct F; discriminate. destruct F; discriminate. destruct F; discriminate. destruct F; discriminate. destruct F; discriminate. }
+  assert (Hso : forall x, setop_at c (s' ++ x) = false) by (intros x; rewrite (setop_at_app _ _ _ Hne); exact Eso).
   (* the generic recursive leaf *)
   assert (Hleaf : forall it', (parse_class F r1 (it' :: acc) false = Some (items, rest)) ->
             length rest < length (c :: s') /\
@@ -126,21 +141,22 @@ Proof.
   { intros it' H'. apply IH in H'. destruct H' as [Hl Hx]. split; [cbn [length]; lia|]. intros f x Hf. apply Hx. cbn [length] in Hf. lia. }
   destruct it as [lo|lo0 hi0|ng nm|ng|ng|ng].
   2-6: (destruct (Hleaf _ H) as [Hl Hx]; split; [exact Hl|]; intros f x Hf; destruct f as [|f]; [cbn [length] in Hf, Hl; lia|];
-        cbn [app]; rewrite parse_class_S, E1, Hx1; apply Hx; exact Hf).
+        cbn [app]; rewrite parse_class_S, E1, Hso, Hx1; apply Hx; exact Hf).
   destruct r1 as [|d r2]; [discriminate|].
   destruct (N.eqb d ch_minus) eqn:Ed.
   - destruct r2 as [|e r3]; [discriminate|]. destruct (N.eqb e ch_rbrack) eqn:Ee.
     + destruct (Hleaf _ H) as [Hl Hx]. split; [exact Hl|]. intros f x Hf. destruct f as [|f]; [cbn [length] in Hf, Hl; lia|].
-      cbn [app]. rewrite parse_class_S, E1, Hx1. cbn [app]. rewrite Ed, Ee. apply (Hx f x Hf).
-    + destruct (class_hi e r3) as [[ith r4]|] eqn:Eh; [|discriminate].
+      cbn [app]. rewrite parse_class_S, E1, Hso, Hx1. cbn [app]. rewrite Ed, Ee. apply (Hx f x Hf).
+    + destruct (N.eqb e ch_minus) eqn:Em; [discriminate|].
+      destruct (class_hi e r3) as [[ith r4]|] eqn:Eh; [|discriminate].
       destruct (class_hi_ext _ _ _ _ Eh) as [Hl4 Hx4].
       destruct ith as [hi|lo0 hi0|ng nm|ng|ng|ng]; try discriminate.
       destruct (N.leb lo hi) eqn:Ele; [|discriminate].
       apply IH in H. destruct H as [Hl Hx]. cbn [length] in Hl1. split; [cbn [length]; lia|].
       intros f x Hf. destruct f as [|f]; [cbn [length] in Hf; lia|].
-      cbn [app]. rewrite parse_class_S, E1, Hx1. cbn [app]. rewrite Ed, Ee, Hx4, Ele. apply Hx. cbn [length] in Hf. lia.
+      cbn [app]. rewrite parse_class_S, E1, Hso, Hx1. cbn [app]. rewrite Ed, Ee, Em, Hx4, Ele. apply Hx. cbn [length] in Hf. lia.
   - destruct (Hleaf _ H) as [Hl Hx]. split; [exact Hl|]. intros f x Hf. destruct f as [|f]; [cbn [length] in Hf, Hl; lia|].
-    cbn [app]. rewrite parse_class_S, E1, Hx1. cbn [app]. rewrite Ed. apply (Hx f x Hf).
+    cbn [app]. rewrite parse_class_S, E1, Hso, Hx1. cbn [app]. rewrite Ed. apply (Hx f x Hf).
 Qed.
 
 (* ------------------------------------------------------------------ quantifiers *)
